@@ -48,11 +48,11 @@ def witFlag (s : St) (e : Ev) : String :=
     with the declarative model `Babble.Dag`: round and witness flag of every event, fame of every
     witness -/
 def dagCheck (s : St) : String :=
-  let ps := s.peersAt 0
+  let psAt : Int → List Nat := fun r => s.peersAt r
   let num (id : String) : Nat := if id == "" then 0 else nameNum id + 1
   let nodes : List Dag.Node := s.events.reverse.map (fun e =>
     { id := num e.id, creator := e.creator, sp := num e.sp, op := num e.op, mid := e.mid })
-  let tbl := Dag.build ps nodes
+  let tbl := Dag.buildD psAt nodes
   let view : List Dag.Rec := tbl.filterMap (fun p => p.2.head?)
   let decidedFn (i : Int) : Bool := ((s.getRound i).map (·.decided)).getD false
   let bad := s.events.filterMap (fun e =>
@@ -61,21 +61,23 @@ def dagCheck (s : St) : String :=
     | some r =>
       if e.round != some r.round then some s!"{e.id}:round {fmtOpt e.round} spec {r.round}" else
       if e.lamport != some r.lamport then some s!"{e.id}:lamport {fmtOpt e.lamport} spec {r.lamport}" else
-      let rrSpec := Dag.rrFrom ps decidedFn view r (s.lastRound - r.round + 2).toNat (r.round + 1) s.lastRound
+      let rrSpec := Dag.rrFromD psAt decidedFn view r (s.lastRound - r.round + 2).toNat (r.round + 1) s.lastRound
       if e.rr != rrSpec then some s!"{e.id}:round-received {fmtOpt e.rr} spec {fmtOpt rrSpec}" else
       let w := witFlag s e
       if w != (if r.wit then "1" else "0") then some s!"{e.id}:witness {w} spec {r.wit}" else
       if !r.wit then none else
       let ri := (s.getRound r.round).getD {}
       let fm := ((ri.created.find? (·.id == e.id)).map (·.fame)).getD .undef
-      match Dag.fameIn ps view r, fm with
+      let fi := Dag.fameInD psAt view r
+      if fi.2 then some s!"{e.id}:two deciders of the lowest deciding round disagree" else
+      match fi.1, fm with
       | some true, .yes => none
       | some false, .no => none
       | none, .undef => none
       | some false, .undef => if ri.decided then none else some s!"{e.id}:fame undecided spec false (round not latched)"
       | sf, f => some s!"{e.id}:fame {repr f} spec {sf}")
   let nw := (view.filter (·.wit)).length
-  let nf := (view.filter (fun r => r.wit && Dag.fameIn ps view r == some true)).length
+  let nf := (view.filter (fun r => r.wit && (Dag.fameInD psAt view r).1 == some true)).length
   if bad.isEmpty then s!"O dag ok ev={view.length} wit={nw} famous={nf}"
   else s!"O dag MISMATCH {bad.length}: {" | ".intercalate (bad.take 5)}"
 
@@ -165,6 +167,21 @@ def hgStep (h : HGState) (toks : List String) : HGState × List String :=
         let pend := s.pending.map (fun p => s!"{p.1}:{if p.2 then 1 else 0}")
         (h, [s!"O last lastRound={s.lastRound} lcr={fmtOpt s.lcr} undet={s.undet.length} pending={fmtList pend} lastBlock={s.lastBlock}"])
       | _ => (h, ["O bad-op"])
+  | ["dagdbg", n, id] =>
+    match n.toNat?.bind (h.nodes.get? ·) with
+    | none => (h, ["O bad-op"])
+    | some s =>
+      let psAt : Int → List Nat := fun r => s.peersAt r
+      let num (id : String) : Nat := if id == "" then 0 else nameNum id + 1
+      let nodes : List Dag.Node := s.events.reverse.map (fun e =>
+        { id := num e.id, creator := e.creator, sp := num e.sp, op := num e.op, mid := e.mid })
+      let view : List Dag.Rec := (Dag.buildD psAt nodes).filterMap (fun p => p.2.head?)
+      match view.find? (fun r => r.e.id == num id) with
+      | none => (h, ["O dbg none"])
+      | some x =>
+        let ds := view.filterMap (fun y => (Dag.decideRecD psAt y x).map (fun b => s!"e{y.e.id - 1}/r{y.round}/c{y.e.creator}:{b}/anc{y.ancs.contains x.e.id}/nssw{y.nssw}/ps{(psAt y.round).length}"))
+        let vs := (view.filter (fun y => y.wit && y.round ≤ x.round + 4 && y.round > x.round)).map (fun y => s!"e{y.e.id - 1}/r{y.round}/c{y.e.creator}:{Dag.voteGet y.votes x.e.id}/anc{y.ancs.contains x.e.id}/nssw{y.nssw}")
+        (h, [s!"O dbg x=e{x.e.id - 1} round={x.round} wit={x.wit} deciders={ds}", s!"O dbg votes={vs}"])
   | ["dag", n] =>
     match n.toNat?.bind (h.nodes.get? ·) with
     | none => (h, ["O bad-op"])
